@@ -12,7 +12,9 @@ if ! git -C "$W/r" apply "$D/patch.diff" 2>/dev/null; then res "PATCH-DOES-NOT-A
 (cd /tmp && PYTHONPATH=/repo timeout 120 /venv/bin/python "$D/demo.py" >/dev/null 2>&1); DO=$?
 out=""
 for c in $ID "$@"; do
-  o=$(cd $V && VF_REPO="$W/r" VF_EVIDENCE_DIR="$W/ev" ./check $c quick 2>&1); rc=$?
+  # first without the ambient sub-passes (fast); with them only if that run stays green
+  o=$(cd $V && VF_NO_AMBIENT=1 VF_REPO="$W/r" VF_EVIDENCE_DIR="$W/ev" ./check $c quick 2>&1); rc=$?
+  if [ $rc = 0 ]; then o=$(cd $V && VF_REPO="$W/r" VF_EVIDENCE_DIR="$W/ev" ./check $c quick 2>&1); rc=$?; fi
   n=$(echo "$o" | grep -c '^VIOLATION')
   b=$(echo "$o" | grep '^  bucket' | head -2 | cut -c1-160 | tr '\n' ';')
   out="$out [$c exit=$rc viol=$n $b]"
